@@ -147,7 +147,7 @@ func runC05(c *Ctx) {
 	for i := 0; i < 3+c.T.Choose(4) && c.S.Viol == nil; i++ {
 		method := []string{"RDG_OUT_DATA", "RDG_OUT_DATA", "RDG_IN_DATA", "GET", "POST"}[c.T.Choose(5)]
 		from := fmt.Sprintf("10.6.0.%d:%d", 1+i, 46000+i)
-		kind := c.T.Choose(12)
+		kind := c.T.Choose(13)
 		if w.has("kerberos") && c.T.Bool(1, 3) {
 			kind = 100 + c.T.Choose(5)
 		}
@@ -275,7 +275,9 @@ func runC05(c *Ctx) {
 				}
 			}
 		case 4:
-			u, p := []string{"alice", "alice", "mallory", "", "alice"}[c.T.Choose(5)], []string{"wrong", "", "x", "correct horse", "correct horse "}[c.T.Choose(5)]
+			// (names decorated with a domain are different names: the service is asked about
+			// the name as given, and confirms nothing for them)
+			u, p := []string{"alice", "alice", "mallory", "", "alice", "alice\\bob", "bob@alice", "ALICE\\bob@corp.test"}[c.T.Choose(8)], []string{"wrong", "", "x", "correct horse", "correct horse ", "bobs password", "bobs password"}[c.T.Choose(7)]
 			if u == "alice" && p == "correct horse" {
 				p = "nope"
 			}
@@ -295,6 +297,55 @@ func runC05(c *Ctx) {
 			what = "negotiate-garbage-token"
 			r = w.request(method, []string{"Negotiate " + b64(c.T.Bytes(40+c.T.Choose(200), 5))}, from)
 			expectReached = open && (method == "RDG_OUT_DATA" || method == "RDG_IN_DATA")
+		case 9:
+			// two Basic requests overlap at the authentication service (which takes a second to
+			// answer): each is decided by the confirmation of its own credentials
+			if !w.tls || !w.has("local") {
+				what = "basic-correct"
+				r = w.request(method, []string{basic("bob", "bobs password")}, from)
+				expectReached = (open || w.has("local") && fault == "") && (method == "RDG_OUT_DATA" || method == "RDG_IN_DATA")
+				break
+			}
+			type cred struct {
+				u, p string
+				ok   bool
+			}
+			pairs := [][2]cred{
+				{{"alice", "correct horse", true}, {"alice", "wrong", false}},
+				{{"alice", "wrong", false}, {"alice", "correct horse", true}},
+				{{"alice", "correct horse", true}, {"bob", "wrong", false}},
+				{{"bob", "bobs password", true}, {"alice", "correct horse", true}},
+				{{"alice", "wrong", false}, {"alice", "also wrong", false}},
+			}[c.T.Choose(5)]
+			what = fmt.Sprintf("concurrent-basic(%s:%v, %s:%v)", pairs[0].u, pairs[0].ok, pairs[1].u, pairs[1].ok)
+			slow := fault == ""
+			if slow {
+				w.node.SlowBy = time.Second
+			}
+			var ps []*env.PendingTLS
+			for k, cr := range pairs {
+				w.n++
+				req := &env.HTTPReq{Name: fmt.Sprintf("q%d", w.n), From: fmt.Sprintf("10.6.3.%d:%d", 1+i, 48000+k), Method: "RDG_OUT_DATA", Path: "/remoteDesktopGateway/",
+					Header: [][2]string{{"Rdg-Connection-Id", fmt.Sprintf("{C05C-%d}", w.n)}, {"Authorization", basic(cr.u, cr.p)}}}
+				ps = append(ps, c.W.StartTLS(req, true))
+				// the first request gets to the authentication service before the second starts
+				c.S.Run(nil, 3000, 300*time.Millisecond)
+			}
+			c.S.Run(func() bool { return ps[0].Done && ps[1].Done }, 40000, 60*time.Second)
+			if slow {
+				w.node.SlowBy = 0
+			}
+			c.S.Count("probe.concurrent_basic")
+			for k, cr := range pairs {
+				res := ps[k].Res
+				log = append(log, fmt.Sprintf("%s[%d]%s->%d", what, k, fault, res.Status))
+				if reached(res) && !(cr.ok && fault == "") {
+					c.S.Fail("C05", "reached-without-credentials", "auth=%v %s %s: request %d (%s with a password the service does not confirm) got %d: the tunnel handler was reached", w.mechs, what, fault, k, cr.u, res.Status)
+				} else if !reached(res) && cr.ok && fault == "" {
+					c.S.Fail("C05", "good-credentials-refused", "auth=%v %s: request %d (%s, correct password) got %d err=%q", w.mechs, what, k, cr.u, res.Status, res.Err)
+				}
+			}
+			r = nil
 		case 8:
 			// valid Basic credentials whose base64 text contains the letters NTLM
 			what = "basic-correct-containing-NTLM"
